@@ -1,8 +1,548 @@
-//! C04 — not built yet.
+//! C04 — BalancedParens navigation = linear-scan definition (DESIGN §4 C04).
+//!
+//! Oracle: one left-to-right pass with an explicit stack (mate / parent tables,
+//! prefix counts) over the first `len` bits, cross-checked on sampled positions
+//! against literal excess scans (both written in `gen::bp`). Every constructor
+//! family (owned / borrowed; NoSelect / deprecated WithSelect / WithCsPoppy at
+//! sample rates 1..=4096; with and without stray 1-bits in the final word) is
+//! built over the same sequence and must give the oracle's answers, as must the
+//! free functions `find_close / find_open / enclose (words, len, p)`.
+#![allow(deprecated)]
 use crate::engine::*;
+use crate::gen::bp::{self, Shape, Tables, NONE};
+use serde_json::json;
+use succinctly::trees::{self, BalancedParens, NoSelect, SelectSupport, WithCsPoppy, WithSelect};
+use succinctly::Config;
 
-pub const RULE: &str = "not built";
+pub const RULE: &str = "G-bp bit sequences built from segments (balanced random walks, deep nests, wide flat, combs, long monotone runs, raw random bits, negative-excess prefixes, unmatched open tails, all-open, all-close, mixtures, optional enclosing pair, optional truncation; 0..=6000 bits quick, up to 300 000 bits = >4 L2 blocks and nesting depth up to 150 000 in thorough), stored in exactly ceil(len/64) words with the bits past len in the final word left clear / set to ones / random; built as owned NoSelect, borrowed NoSelect, WithCsPoppy (owned/borrowed, default and Config rates {1,2,3,7,64,255,256,257,512,4095,4096} U [1,4096]) and deprecated WithSelect (owned/borrowed). Positions: all (len<=700) or every word/2048/65536 boundary +-2, opens whose pair spans a 2048-bit boundary and their mates, random positions, a dense window, and out-of-range p. Every answer is compared with stack/prefix tables over the first len bits. Non-trivial: len > 64 with a matched pair spanning a word boundary; distinct by hash(words,len).";
+
+const RATES: &[u32] = &[1, 2, 3, 7, 64, 255, 256, 257, 512, 4095, 4096];
+
+fn rate(u: &mut Src) -> u32 {
+    if u.ratio(2, 3) {
+        *u.pick(RATES)
+    } else {
+        u.range(1, 4096) as u32
+    }
+}
+
+pub struct Case {
+    /// exact storage, bits past len clear
+    pub clean: Vec<u64>,
+    /// same, with stray bits in the final word (may equal `clean`)
+    pub stray: Vec<u64>,
+    pub len: usize,
+    pub shape: Shape,
+    pub stray_kind: &'static str,
+    pub rate: u32,
+    pub rate2: u32,
+    pub variant_mask: u32,
+}
+
+fn make_case(u: &mut Src, b: bp::BitBuf, shape: Shape) -> Case {
+    let len = b.len;
+    let clean = b.words;
+    let mut stray = clean.clone();
+    let mut stray_kind = "none";
+    if len % 64 != 0 {
+        let hi = !((1u64 << (len % 64)) - 1);
+        let l = stray.len() - 1;
+        match u.below(4) {
+            0 => {}
+            1 => {
+                stray[l] |= hi;
+                stray_kind = "all-ones";
+            }
+            2 => {
+                stray[l] |= hi & u.u64();
+                stray_kind = "random";
+            }
+            _ => {
+                stray[l] |= 1u64 << (len % 64); // just the first bit past len
+                stray_kind = "first-bit-past-len";
+            }
+        }
+        if stray[l] == clean[l] {
+            stray_kind = "none";
+        }
+    }
+    Case { clean, stray, len, shape, stray_kind, rate: rate(u), rate2: rate(u), variant_mask: u.u32() }
+}
+
+// ------------------------------------------------------------------ query points
+
+pub struct Points {
+    pub pos: Vec<usize>,
+    pub ranks: Vec<usize>,
+    pub ks1: Vec<usize>,
+    pub ks0: Vec<usize>,
+    /// bit-step budget for the linear-time operations (find_open, enclose), per variant
+    pub linear_budget: usize,
+}
+
+fn points(u: &mut Src, t: &Tables, rates: &[u32], nrandom: usize, linear_budget: usize) -> Points {
+    let len = t.len;
+    let mut pos: Vec<usize> = Vec::new();
+    if len <= 700 {
+        pos.extend(0..len + 3);
+    } else {
+        let step = if len <= 8192 { 64 } else { 2048 };
+        let mut b = 0usize;
+        while b <= len + 64 {
+            for d in [-2isize, -1, 0, 1, 2] {
+                let p = b as isize + d;
+                if p >= 0 {
+                    pos.push(p as usize);
+                }
+            }
+            b += step;
+        }
+        let mut b = 65536usize;
+        while b <= len {
+            pos.extend(b - 3..b + 3);
+            b += 65536;
+        }
+        // a few random word boundaries
+        for _ in 0..40 {
+            let w = u.range(0, len / 64) * 64;
+            pos.extend([w.saturating_sub(1), w, w + 1]);
+        }
+        for _ in 0..nrandom {
+            pos.push(u.range(0, len - 1));
+        }
+        let s = u.range(0, len - 1);
+        pos.extend(s..(s + 130).min(len));
+        // pairs spanning L1 boundaries: the opens and their mates
+        let stride = (t.spanning.len() / 400).max(1);
+        for &o in t.spanning.iter().step_by(stride) {
+            pos.push(o as usize);
+            if t.mate[o as usize] != NONE {
+                pos.push(t.mate[o as usize] as usize);
+            }
+        }
+        pos.extend([0, 1, 2, len - 2, len - 1, len, len + 1, len + 2]);
+    }
+    pos.extend([len + 63, len + 64, len + 65, 1 << 32, (1 << 32) + 1, usize::MAX - 1, usize::MAX]);
+    let mut ranks = pos.clone();
+    ranks.extend(len..len + 131);
+    let sel = |u: &mut Src, n: usize, extra: &[u32]| -> Vec<usize> {
+        let mut v: Vec<usize> = if n <= 700 {
+            (0..n + 3).collect()
+        } else {
+            let mut v: Vec<usize> = (0..nrandom).map(|_| u.range(0, n + 1)).collect();
+            v.extend([0, 1, n - 1, n, n + 1]);
+            for &r in extra {
+                let r = r as usize;
+                for _ in 0..30 {
+                    let m = u.range(0, n / r) * r;
+                    v.extend([m.saturating_sub(1), m, m + 1]);
+                }
+                v.extend([(n / r) * r, ((n / r) * r).saturating_sub(1)]);
+            }
+            v
+        };
+        v.extend([1 << 32, (1 << 32) + 1, usize::MAX - 1, usize::MAX]);
+        v
+    };
+    let ks1 = sel(u, t.pos1.len(), rates);
+    let ks0 = sel(u, t.pos0.len(), &[]);
+    Points { pos, ranks, ks1, ks0, linear_budget }
+}
+
+// ------------------------------------------------------------------ expected answers
+
+fn opt(x: u32) -> Option<usize> {
+    if x == NONE {
+        None
+    } else {
+        Some(x as usize)
+    }
+}
+
+struct Exp<'a> {
+    t: &'a Tables,
+    w: &'a [u64],
+}
+
+impl Exp<'_> {
+    fn bit(&self, p: usize) -> bool {
+        (self.w[p / 64] >> (p % 64)) & 1 == 1
+    }
+    fn is_open(&self, p: usize) -> bool {
+        p < self.t.len && self.bit(p)
+    }
+    fn is_close(&self, p: usize) -> bool {
+        p < self.t.len && !self.bit(p)
+    }
+    fn find_close(&self, p: usize) -> Option<usize> {
+        if self.is_open(p) {
+            opt(self.t.mate[p])
+        } else {
+            None
+        }
+    }
+    fn find_open(&self, p: usize) -> Option<usize> {
+        if self.is_close(p) {
+            opt(self.t.mate[p])
+        } else {
+            None
+        }
+    }
+    fn enclose(&self, p: usize) -> Option<usize> {
+        if self.is_open(p) {
+            opt(self.t.parent[p])
+        } else {
+            None
+        }
+    }
+    fn first_child(&self, p: usize) -> Option<usize> {
+        if self.is_open(p) && self.is_open(p + 1) {
+            Some(p + 1)
+        } else {
+            None
+        }
+    }
+    fn next_sibling(&self, p: usize) -> Option<usize> {
+        let c = self.find_close(p)?;
+        if self.is_open(c + 1) {
+            Some(c + 1)
+        } else {
+            None
+        }
+    }
+    fn subtree_size(&self, p: usize) -> Option<usize> {
+        self.find_close(p).map(|c| (c - p) / 2)
+    }
+    fn rank1(&self, p: usize) -> usize {
+        self.t.ones[p.min(self.t.len)] as usize
+    }
+    /// opens minus closes in [0, p], p < len
+    fn excess(&self, p: usize) -> i64 {
+        2 * self.t.ones[p + 1] as i64 - (p as i64 + 1)
+    }
+}
+
+#[derive(Clone, Copy, PartialEq)]
+enum Sel {
+    None,
+    Index,
+}
+
+fn check_variant<W: AsRef<[u64]>, S: SelectSupport>(
+    bp: &BalancedParens<W, S>,
+    e: &Exp,
+    pts: &Points,
+    sel: Sel,
+    vname: &str,
+    info: &dyn Fn() -> serde_json::Value,
+    st: &mut Stats,
+) -> Result<(), Fail> {
+    let len = e.t.len;
+    let n1 = e.t.pos1.len();
+    check_eq!("C04/len", len, bp.len(), {"variant": vname, "case": info()});
+    check_eq!("C04/is_empty", len == 0, bp.is_empty(), {"variant": vname, "case": info()});
+    check_eq!("C04/total_ones", n1, bp.total_ones(), {"variant": vname, "case": info()});
+    check_eq!("C04/total_zeros", len - n1, bp.total_zeros(), {"variant": vname, "case": info()});
+    let mut evals = 4u64;
+    let mut budget_open = pts.linear_budget;
+    let mut budget_encl = pts.linear_budget;
+    for &p in &pts.pos {
+        let d = |api: &str| json!({"variant": vname, "api": api, "p": p, "case": info()});
+        check_eq!("C04/is_open", e.is_open(p), bp.is_open(p), d("is_open"));
+        check_eq!("C04/is_close", e.is_close(p), bp.is_close(p), d("is_close"));
+        check_eq!("C04/find_close", e.find_close(p), bp.find_close(p), d("find_close"));
+        check_eq!("C04/first_child", e.first_child(p), bp.first_child(p), d("first_child"));
+        check_eq!("C04/next_sibling", e.next_sibling(p), bp.next_sibling(p), d("next_sibling"));
+        check_eq!("C04/subtree_size", e.subtree_size(p), bp.subtree_size(p), d("subtree_size"));
+        evals += 6;
+        if p < len {
+            let x = e.excess(p);
+            check_eq!("C04/excess", x, bp.excess(p) as i64, d("excess"));
+            if x >= 0 {
+                check_eq!("C04/depth", Some(x as usize), bp.depth(p), d("depth"));
+            }
+            evals += 2;
+        } else {
+            check_eq!("C04/depth", None::<usize>, bp.depth(p), d("depth"));
+            evals += 1;
+        }
+        // linear-time scans: bounded by expected scan distance
+        let fo = e.find_open(p);
+        let cost = if e.is_close(p) { p - fo.unwrap_or(0) } else { 0 };
+        if cost <= budget_open {
+            budget_open -= cost;
+            check_eq!("C04/find_open", fo, bp.find_open(p), d("find_open"));
+            evals += 1;
+        }
+        let en = e.enclose(p);
+        let cost = if e.is_open(p) { (p - en.unwrap_or(0)) / 8 } else { 0 };
+        if cost <= budget_encl {
+            budget_encl -= cost;
+            check_eq!("C04/enclose", en, bp.enclose(p), d("enclose"));
+            check_eq!("C04/parent", en, bp.parent(p), d("parent"));
+            evals += 2;
+        }
+    }
+    for &p in &pts.ranks {
+        let r1 = e.rank1(p);
+        let r0 = p.min(len) - r1;
+        check_eq!("C04/rank1", r1, bp.rank1(p), {"variant": vname, "p": p, "case": info()});
+        check_eq!("C04/rank0", r0, bp.rank0(p), {"variant": vname, "p": p, "case": info()});
+    }
+    evals += 2 * pts.ranks.len() as u64;
+    for &k in &pts.ks1 {
+        let exp = match sel {
+            Sel::None => None, // documented: NoSelect always returns None
+            Sel::Index => e.t.pos1.get(k).map(|&x| x as usize),
+        };
+        if sel == Sel::None {
+            check_eq!("C04/select1/NoSelect", exp, bp.select1(k), {"variant": vname, "k": k, "case": info()});
+        } else {
+            check_eq!("C04/select1", exp, bp.select1(k), {"variant": vname, "k": k, "case": info()});
+        }
+    }
+    for &k in &pts.ks0 {
+        check_eq!("C04/select0", e.t.pos0.get(k).map(|&x| x as usize), bp.select0(k), {"variant": vname, "k": k, "case": info()});
+    }
+    evals += (pts.ks1.len() + pts.ks0.len()) as u64;
+    st.evals(evals);
+    Ok(())
+}
+
+fn check_free(words: &[u64], e: &Exp, pts: &Points, wname: &str, info: &dyn Fn() -> serde_json::Value, st: &mut Stats) -> Result<(), Fail> {
+    let len = e.t.len;
+    let mut budget_open = pts.linear_budget;
+    let mut budget_encl = pts.linear_budget;
+    let mut evals = 0u64;
+    for &p in &pts.pos {
+        let d = |api: &str| json!({"variant": wname, "api": api, "p": p, "case": info()});
+        check_eq!("C04/free/find_close", e.find_close(p), trees::find_close(words, len, p), d("find_close"));
+        evals += 1;
+        let fo = e.find_open(p);
+        let cost = if e.is_close(p) { p - fo.unwrap_or(0) } else { 0 };
+        if cost <= budget_open {
+            budget_open -= cost;
+            check_eq!("C04/free/find_open", fo, trees::find_open(words, len, p), d("find_open"));
+            evals += 1;
+        }
+        let en = e.enclose(p);
+        let cost = if e.is_open(p) { (p - en.unwrap_or(0)) / 8 } else { 0 };
+        if cost <= budget_encl {
+            budget_encl -= cost;
+            check_eq!("C04/free/enclose", en, trees::enclose(words, len, p), d("enclose"));
+            evals += 1;
+        }
+    }
+    st.evals(evals);
+    Ok(())
+}
+
+/// the stack tables against the literal excess-scan definitions (harness self-check)
+fn selfcheck(c: &Case, t: &Tables, u: &mut Src, n: usize) -> Result<(), Fail> {
+    let len = c.len;
+    if len == 0 {
+        return Ok(());
+    }
+    let e = Exp { t, w: &c.clean };
+    for i in 0..n {
+        let p = if i < 4 { [0, len - 1, len / 2, len / 3][i] } else { u.range(0, len - 1) };
+        let a = (bp::scan_find_close(&c.clean, len, p), bp::scan_find_open(&c.clean, len, p), bp::scan_enclose(&c.clean, len, p));
+        let b = (e.find_close(p), e.find_open(p), e.enclose(p));
+        if a != b {
+            fail!("C04/oracle-selfcheck", {"note": "HARNESS BUG: stack tables disagree with the literal scan definition", "p": p, "scan": format!("{:?}", a), "tables": format!("{:?}", b)});
+        }
+    }
+    Ok(())
+}
+
+fn describe(c: &Case) -> serde_json::Value {
+    json!({
+        "len": c.len, "n_words": c.stray.len(), "shape": format!("{:?}", c.shape), "stray": c.stray_kind,
+        "rate": c.rate, "rate2": c.rate2, "variant_mask": c.variant_mask,
+        "words_hex_with_strays": c.stray.iter().take(1100).map(|w| format!("{:016x}", w)).collect::<Vec<_>>(),
+        "words_hash": format!("{:016x}", hash_words(&c.stray)),
+    })
+}
+
+fn classify(c: &Case, t: &Tables, st: &mut Stats) {
+    let len = c.len;
+    st.size(len);
+    st.class(&format!("shape-{:?}", c.shape));
+    let final_excess = 2 * t.pos1.len() as i64 - len as i64;
+    let unbalanced = t.min_excess < 0 || final_excess != 0;
+    let nt = len > 64 && t.pair_spans_word;
+    if nt {
+        st.class("nontrivial");
+        st.nontrivial(mix64(hash_words(&c.stray) ^ len as u64));
+    }
+    st.class_if(unbalanced, "unbalanced");
+    st.class_if(!unbalanced && len > 0, "balanced");
+    st.class_if(t.min_excess < 0, "negative-excess-prefix");
+    st.class_if(t.min_excess < 0, "has-positions-where-depth-is-not-asserted");
+    st.class_if(final_excess > 0, "unmatched-open-tail");
+    st.class_if(t.pair_spans_l1, "pair-spans-L1-block(2048)");
+    st.class_if(t.pair_spans_l2, "pair-spans-L2-block(65536)");
+    st.class_if(t.max_depth > 64, "depth>64");
+    st.class_if(t.max_depth > 2048, "depth>2048");
+    st.class_if(t.max_depth > 32767, "depth>32767");
+    st.class_if(c.stray_kind != "none", "strays-present");
+    st.class_if(len % 64 != 0, "len-not-multiple-of-64");
+    st.class_if(c.rate != 256, "rate!=256");
+    st.class_if(len > 2048, "len>2048");
+    st.class_if(len > 65536, "len>65536");
+    st.class_if(len > 4 * 65536, "len>4-L2-blocks");
+    let cls = if t.max_depth > 32767 {
+        "deep>32767"
+    } else if t.pair_spans_l1 {
+        "spans-L1"
+    } else if unbalanced {
+        "unbalanced"
+    } else {
+        "balanced"
+    };
+    st.sample(cls, || {
+        json!({"len": len, "shape": format!("{:?}", c.shape), "stray": c.stray_kind, "rate": [c.rate, c.rate2], "max_depth": t.max_depth, "min_excess": t.min_excess,
+               "head": (0..len.min(96)).map(|i| if (c.clean[i / 64] >> (i % 64)) & 1 == 1 { '(' } else { ')' }).collect::<String>()})
+    });
+}
+
+pub fn check_case(c: &Case, u: &mut Src, st: &mut Stats, large: bool) -> Result<(), Fail> {
+    let len = c.len;
+    let t = bp::tables(&c.clean, len);
+    classify(c, &t, st);
+    selfcheck(c, &t, u, if large { 12 } else { 24 })?;
+    let e = Exp { t: &t, w: &c.clean };
+    let pts = points(u, &t, &[c.rate, c.rate2, 256], if large { 1500 } else { 250 }, if large { 3_000_000 } else { 300_000 });
+    let info = || json!({"len": len, "shape": format!("{:?}", c.shape), "stray": c.stray_kind, "rate": c.rate, "rate2": c.rate2, "words_hex_with_strays": c.stray.iter().take(64).map(|w| format!("{:016x}", w)).collect::<Vec<_>>()});
+    let m = c.variant_mask;
+    let pickw = |bit: u32| -> &Vec<u64> { if (m >> bit) & 1 == 1 { &c.stray } else { &c.clean } };
+
+    // 1. owned NoSelect (storage with strays: the constructor must mask them)
+    {
+        let b = BalancedParens::new(c.stray.clone(), len);
+        check_variant(&b, &e, &pts, Sel::None, "new(owned,NoSelect)", &info, st)?;
+        st.class("variant-owned-NoSelect");
+    }
+    // 2. borrowed NoSelect over the stray storage (cannot be masked in place)
+    {
+        let b: BalancedParens<&[u64], NoSelect> = BalancedParens::from_words(&c.stray[..], len);
+        check_variant(&b, &e, &pts, Sel::None, "from_words(borrowed,NoSelect)", &info, st)?;
+        st.class("variant-borrowed-NoSelect");
+    }
+    // 3. CS-Poppy at the case's rate, owned or borrowed
+    if (m >> 8) & 1 == 1 {
+        let b = BalancedParens::new_with_cspoppy_config(pickw(0).clone(), len, Config { select_sample_rate: c.rate });
+        check_variant(&b, &e, &pts, Sel::Index, "new_with_cspoppy_config(owned)", &info, st)?;
+        st.class("variant-owned-CsPoppy-rate");
+    } else {
+        let b: BalancedParens<&[u64], WithCsPoppy> =
+            BalancedParens::from_words_with_cspoppy_config(&pickw(0)[..], len, Config { select_sample_rate: c.rate });
+        check_variant(&b, &e, &pts, Sel::Index, "from_words_with_cspoppy_config(borrowed)", &info, st)?;
+        st.class("variant-borrowed-CsPoppy-rate");
+    }
+    // 4. a second rate / the default-rate constructors
+    match (m >> 9) & 3 {
+        0 => {
+            let b = BalancedParens::new_with_cspoppy(pickw(1).clone(), len);
+            check_variant(&b, &e, &pts, Sel::Index, "new_with_cspoppy(owned,default-rate)", &info, st)?;
+            st.class("variant-owned-CsPoppy-default");
+        }
+        1 => {
+            let b: BalancedParens<&[u64], WithCsPoppy> = BalancedParens::from_words_with_cspoppy(&pickw(1)[..], len);
+            check_variant(&b, &e, &pts, Sel::Index, "from_words_with_cspoppy(borrowed,default-rate)", &info, st)?;
+            st.class("variant-borrowed-CsPoppy-default");
+        }
+        2 => {
+            let b: BalancedParens<&[u64], WithCsPoppy> =
+                BalancedParens::from_words_with_cspoppy_config(&c.stray[..], len, Config { select_sample_rate: c.rate2 });
+            check_variant(&b, &e, &pts, Sel::Index, "from_words_with_cspoppy_config(borrowed,rate2)", &info, st)?;
+            st.class("variant-borrowed-CsPoppy-rate");
+        }
+        _ => {
+            let b = BalancedParens::new_with_cspoppy_config(c.stray.clone(), len, Config { select_sample_rate: c.rate2 });
+            check_variant(&b, &e, &pts, Sel::Index, "new_with_cspoppy_config(owned,rate2)", &info, st)?;
+            st.class("variant-owned-CsPoppy-rate");
+        }
+    }
+    // 5. deprecated WithSelect, owned or borrowed
+    match (m >> 11) & 3 {
+        0 => {
+            let b = BalancedParens::new_with_select(pickw(2).clone(), len);
+            check_variant(&b, &e, &pts, Sel::Index, "new_with_select(owned,WithSelect)", &info, st)?;
+            st.class("variant-owned-WithSelect");
+        }
+        1 => {
+            let b: BalancedParens<&[u64], WithSelect> = BalancedParens::from_words_with_select(&pickw(2)[..], len);
+            check_variant(&b, &e, &pts, Sel::Index, "from_words_with_select(borrowed,WithSelect)", &info, st)?;
+            st.class("variant-borrowed-WithSelect");
+        }
+        _ => {}
+    }
+    // 6. an owning generic storage through from_words (Vec<u64> as W)
+    if (m >> 13) & 1 == 1 {
+        let b: BalancedParens<Vec<u64>, NoSelect> = BalancedParens::from_words(c.stray.clone(), len);
+        check_variant(&b, &e, &pts, Sel::None, "from_words(Vec,NoSelect)", &info, st)?;
+    }
+    // 7. free functions over the raw words (with and without strays)
+    check_free(&c.stray, &e, &pts, "free(words-with-strays)", &info, st)?;
+    if c.stray_kind != "none" && (m >> 14) & 1 == 1 {
+        check_free(&c.clean, &e, &pts, "free(clean-words)", &info, st)?;
+    }
+    Ok(())
+}
 
 pub fn run(cx: &mut Ctx) {
-    cx.infra("check not built");
+    cx.assume("reference model: explicit-stack pass + prefix counts over the first len bits (harness code), cross-checked per case against literal forward/backward excess scans on sampled positions");
+    cx.assume("storage is exactly ceil(len/64) words (the documented contract masks strays in the final word only); len <= u32::MAX");
+    cx.assume("depth(p) is asserted only where excess(p) >= 0; NoSelect::select1 is asserted to be None as documented; find_open/enclose calls are bounded by a per-variant scan-distance budget on large inputs");
+    let quick = cx.tier == Tier::Quick;
+    let max_bits = 6000;
+    cx.check(
+        "bp-vs-scan",
+        RULE,
+        Budget { quick: 80_000, thorough: 1_500_000, max_len: 3000 },
+        |u, st| {
+            let (b, shape) = bp::sequence(u, max_bits);
+            let c = make_case(u, b, shape);
+            st.describe(|| describe(&c));
+            check_case(&c, u, st, false)
+        },
+    );
+    for cl in [
+        "nontrivial",
+        "unbalanced",
+        "balanced",
+        "negative-excess-prefix",
+        "unmatched-open-tail",
+        "pair-spans-L1-block(2048)",
+        "depth>64",
+        "depth>2048",
+        "strays-present",
+        "rate!=256",
+        "len>2048",
+        "variant-owned-WithSelect",
+        "variant-borrowed-WithSelect",
+        "variant-owned-CsPoppy-rate",
+        "variant-borrowed-CsPoppy-rate",
+        "variant-owned-CsPoppy-default",
+        "variant-borrowed-CsPoppy-default",
+    ] {
+        cx.require_class("bp-vs-scan", cl, 20);
+    }
+    if !quick {
+        cx.check(
+            "bp-vs-scan-large",
+            "as above on 66 000..330 000-bit sequences (2..6 L2 blocks) and dedicated nests of depth 32 768..150 000; sampled positions (every 2048/65536-bit boundary +-2, spanning pairs and mates, 1500 random, a dense window)",
+            Budget { quick: 0, thorough: 2_500, max_len: 3000 },
+            |u, st| {
+                let (b, shape) = if u.ratio(1, 3) { bp::deep_sequence(u, 32_768, 150_000) } else { bp::sequence_in(u, 66_000, 330_000) };
+                let c = make_case(u, b, shape);
+                st.describe(|| describe(&c));
+                check_case(&c, u, st, true)
+            },
+        );
+        for cl in ["depth>32767", "pair-spans-L2-block(65536)", "len>65536", "len>4-L2-blocks", "unbalanced", "strays-present"] {
+            cx.require_class("bp-vs-scan-large", cl, 10);
+        }
+    }
 }
